@@ -190,7 +190,12 @@ fn eval(rep: &mut Report, q: &Query, real: &Real, refs: &Refs, ctxj: &dyn Fn() -
             if let Some(v) = settle(rep, "map_method_ref", q, guard(|| real.b.map_method_ref(&r))) {
                 let (c, nn, de) = (jstr(v.class.as_inner()), jstr(v.name.as_inner()), jstr(v.desc.as_inner()));
                 if c != exp_class { rep.violation("C06 map_method_ref: array owner class is not rewritten like an array descriptor", json!({"query": format!("{q:?}"), "expected": exp_class, "observed": c, "ctx": ctxj()})); }
-                if nn != *name || de != *d { rep.violation("C06 map_method_ref: member of an array class changed", json!({"query": format!("{q:?}"), "observed": [nn, de], "ctx": ctxj()})); }
+                // An array class declares nothing and has no super types in the graph: the statement's fall-back gives "unchanged name, remapped
+                // descriptor"; the repository's documentation says "no remapping of the name or descriptor". Where the two differ (the descriptor
+                // mentions a mapped class) either answer is accepted - the statement does not single out array owners - anything else is not.
+                let exp_d = refs.fwd.method_desc(d).unwrap_or_else(|_| d.clone());
+                if exp_d != *d { rep.count(if de == *d { "q.method_ref.array_owner.descriptor_left_alone (documented reading)" } else { "q.method_ref.array_owner.descriptor_remapped (statement's fall-back)" }); }
+                if nn != *name || (de != *d && de != exp_d) { rep.violation("C06 map_method_ref: member of an array class changed", json!({"query": format!("{q:?}"), "observed": [nn, de], "accepted_descriptors": [d, exp_d], "ctx": ctxj()})); }
             }
         }
         Query::AsB { kind, owner, name, d } => {
@@ -358,9 +363,11 @@ fn gen_query(rng: &mut Rng, sc: &Scenario, refm: &RefRemapper, f: usize, pc: &Pa
         5 | 6 => Query::MethodDesc { d: gen_method_desc(rng, pool, true), on_b },
         7 => Query::ReturnDesc { d: if rng.chance(1, 4) { "V".into() } else { gen_field_desc(rng, pool, true) }, on_b },
         8 => {
-            // array owner: descriptor without classes the tables know (both readings of the documentation agree there)
+            // array owner: half of the descriptors mention only classes the tables do not know (both readings of "member of an array
+            // class" agree there), the other half any class (either reading is accepted, see eval)
             let unm: Vec<String> = sc.outside.iter().filter(|c| refm.class_opt(c).is_none()).cloned().collect();
-            Query::ArrayMethodRef { class: { let mut s = gen_field_desc(rng, pool, false); if !s.starts_with('[') { s.insert(0, '['); } s }, name: "clone".into(), d: gen_method_desc(rng, &unm, false) }
+            let any = rng.bool();
+            Query::ArrayMethodRef { class: { let mut s = gen_field_desc(rng, pool, false); if !s.starts_with('[') { s.insert(0, '['); } s }, name: "clone".into(), d: if any { gen_method_desc(rng, pool, false) } else { gen_method_desc(rng, &unm, false) } }
         }
         _ => {
             // member query
@@ -691,7 +698,7 @@ fn main() {
         .assume("class names are pairwise distinct per namespace and (name, descriptor) of the members of one class are pairwise distinct per namespace (otherwise 'the counterpart' is not defined); pairs where that fails are skipped and counted")
         .assume("names never contain white space; inheritance graphs are acyclic")
         .assume("each class is known to one provider, or repeated with an identical super-type list in a later one (the property does not say which of two different lists would win)")
-        .assume("map_method_ref on an ARRAY owner is queried only with descriptors that mention no mapped class (the documentation says name and descriptor are left alone, the property says 'remapped descriptor'; both agree there)")
+        .assume("map_method_ref on an ARRAY owner: the name must stay; for the descriptor both the documented behaviour (left alone) and the statement's fall-back (remapped) are accepted where they differ, since the statement does not single out array owners; which one was observed is counted")
         .assume("'nearest declaring super type in declaration order' is read as depth-first pre-order (DESIGN 9a); cases where a breadth-first reading would differ are counted (q.member.depth_first_differs_from_breadth_first)");
     if replay.is_none() {
         meta.oblige("pairs with from != first namespace", rep.get("pair.from_other_namespace") > 0);
